@@ -675,7 +675,7 @@ class Checker:
         # a line statement of a {% liquid %} tag
         if not (text == name or (text.startswith(name) and not (text[len(name)].isalnum() or text[len(name)] in "_-"))):
             return "line-statement:not-at-the-tag"
-        if "%}" in text and "'" not in text and '"' not in text:
+        if text.rstrip().endswith("%}"):
             return "line-statement:includes-closing-delimiter"
         if "\n" in text and "'" not in text and '"' not in text:
             return "line-statement:spans-lines"
